@@ -428,6 +428,9 @@ pub fn worker_case(case: &Value, dir: &Path) -> Value {
     if case["kind"] == "builder" {
         return builder_leg(case["depth"].as_u64().unwrap_or(3) as usize);
     }
+    if case["kind"] == "byproducts" {
+        return byproducts_leg(case["full"].as_bool().unwrap_or(false), dir);
+    }
     let full = case["full"].as_bool().unwrap_or(false);
     let is_cyclic = cyclic(&t);
     let mut mismatches = vec![];
@@ -806,6 +809,88 @@ fn builder_leg(depth: usize) -> Value {
     json!({"queries": n, "mismatches": mismatches, "reference_maps": n, "reference_errors": 0, "reference_entries": entries})
 }
 
+/// Round 12/13: the byproducts clause over an alphabet of output streams. The command copies two
+/// prepared files to its standard output and standard error and exits with a chosen status, through
+/// `run_command` and through `in_toto_run`. An `Ok` must carry exactly the bytes written and the
+/// status; an `Err` is acceptable only where a stream is not UTF-8 (a string cannot hold it).
+fn byproducts_leg(full: bool, dir: &Path) -> Value {
+    let big = vec![b'x'; 70_001];
+    let streams: Vec<(&str, &[u8])> = vec![
+        ("empty", b""),
+        ("x", b"x"),
+        ("two-lines-newline-at-end", b"out\nline2\n"),
+        ("blank-and-newline", b" \n"),
+        ("crlf", b"a\r\nb\r\n"),
+        ("non-ascii", "\u{e9}\u{20ac}\u{1f600}".as_bytes()),
+        ("replacement-character-itself", "a\u{fffd}b".as_bytes()),
+        ("nul-inside", b"a\0b"),
+        ("beyond-a-pipe-buffer", &big),
+        ("invalid:0xff", b"a\xffb"),
+        ("invalid:cut-multibyte-at-end", b"ab\xc3"),
+        ("invalid:surrogate", b"\xed\xa0\x80"),
+        ("invalid:latin1", b"caf\xe9\n"),
+    ];
+    let rets = [0i32, 1, 3, 255];
+    let mut mismatches = vec![];
+    let mut n = 0u64;
+    let (fo, fe) = (dir.join("bp.out"), dir.join("bp.err"));
+    for (oi, (on, ob)) in streams.iter().enumerate() {
+        for (ei, (en, eb)) in streams.iter().enumerate() {
+            for (ri, ret) in rets.iter().enumerate() {
+                // quick tier: the full stdout x stderr product, the status cycling with it
+                if !full && ri != (oi + ei) % rets.len() {
+                    continue;
+                }
+                std::fs::write(&fo, ob).unwrap();
+                std::fs::write(&fe, eb).unwrap();
+                let script = format!("cat bp.out; cat bp.err >&2; exit {ret}");
+                let argv = ["sh", "-c", script.as_str()];
+                let representable = std::str::from_utf8(ob).is_ok() && std::str::from_utf8(eb).is_ok();
+                let query = json!({"stdout": on, "stderr": en, "status": ret});
+                let d = dir.to_str().unwrap_or(".");
+                let mut judge = |entry: &str, r: Guard<Result<Value, String>>| match r {
+                    Guard::Panicked(l, m) => mismatches.push(json!({"key": format!("panic:{l}"), "entry": entry, "query": query, "what": m})),
+                    Guard::Done(Err(e)) => {
+                        if representable {
+                            mismatches.push(json!({"key": "byproducts:run-fails-although-representable", "entry": entry, "query": query, "what": e}));
+                        }
+                    }
+                    Guard::Done(Ok(by)) => {
+                        let so = by["stdout"].as_str().map(|x| x.as_bytes() == *ob);
+                        let se = by["stderr"].as_str().map(|x| x.as_bytes() == *eb);
+                        let rv = by["return-value"].as_i64();
+                        if so != Some(true) || se != Some(true) || rv != Some(*ret as i64) {
+                            let which = if so != Some(true) { "stdout" } else if se != Some(true) { "stderr" } else { "status" };
+                            let cls = if representable { "text" } else { "not-utf8" };
+                            let shown = |v: &Value| v.as_str().map(|x| x.chars().take(40).collect::<String>());
+                            mismatches.push(json!({"key": format!("byproducts-differ:{which}:{cls}"), "entry": entry, "query": query,
+                                "recorded": {"stdout": shown(&by["stdout"]), "stderr": shown(&by["stderr"]), "return-value": by["return-value"]}}));
+                        }
+                    }
+                };
+                n += 2;
+                judge(
+                    "run_command",
+                    guard(|| in_toto::runlib::run_command(&argv, Some(d)).map(|b| serde_json::to_value(&b).unwrap_or_default()).map_err(|e| format!("{e:?}"))),
+                );
+                judge(
+                    "in_toto_run",
+                    guard(|| {
+                        in_toto_run("bp", Some(d), &[], &[], &argv, None, None, None)
+                            .map(|mb| serde_json::to_value(&mb.metadata).unwrap_or_default()["byproducts"].clone())
+                            .map_err(|e| format!("{e:?}"))
+                    }),
+                );
+            }
+        }
+    }
+    let _ = std::env::set_current_dir("/");
+    // one witness per key is enough
+    let mut seen = BTreeSet::new();
+    mismatches.retain(|m| seen.insert(format!("{}|{}", m["key"].as_str().unwrap_or(""), m["entry"].as_str().unwrap_or(""))));
+    json!({"queries": n, "mismatches": mismatches, "reference_maps": 0, "reference_errors": 0, "reference_entries": 0})
+}
+
 pub const COMMANDS: [&str; 7] = ["none", "create", "modify", "delete", "print", "exit3", "create-in-subdir"];
 /// Argument variants of the run leg (besides materials = products = the whole tree, defaults).
 pub const RUN_VARIANTS: [&str; 6] = ["products-one-node", "materials-one-node", "sha512+strip", "both-algorithms", "no-materials", "no-products"];
@@ -954,6 +1039,7 @@ pub fn run(tier: Tier) -> i32 {
         }
     }
     cases.push(json!({"kind": "builder", "tree": {}, "depth": if tier.thorough() { 5 } else { 4 }}));
+    cases.push(json!({"kind": "byproducts", "tree": {}, "full": tier.thorough()}));
     let results = worker::run_cases("c18", &cases, if tier.thorough() { 1500 } else { 300 });
     let mut acc = Acc::new();
     acc.states = trees.len() as u64;
@@ -994,7 +1080,7 @@ pub fn run(tier: Tier) -> i32 {
     }
     crate::envprobe::judge(&mut acc, "C18:", &mut c.extra);
     c.acc = acc;
-    c.rule = "state = directory tree reached by appending one node under an existing directory (mkdir; write with size in {0,1,1023,1024,1025,4097,8193,70001} for single-node trees and {1,1025} otherwise; symlink absolute/relative to any existing node or to an ancestor incl. the root), names assigned in the fixed order a, ab, .h, 'e é', deduplicated on the sorted listing; per tree a menu of queries (whole tree x 7 strip lists x 10 algorithm lists (incl. lists that mix a supported with an unsupported or mis-cased name: an error, never a silently shortened digest set); non-normalised roots; each top-level node as root; two roots in both orders; overlapping and repeated roots) through record_artifacts in a private cwd, compared with an independent walker; plus in_toto_run with 7 commands on a subset, and with 6 argument variants (materials and products from different paths, other algorithms, strip prefixes, one side empty) x 4 commands; plus every history of depth <= 4 (5) over {add_material(f), add_product(f), write(f, c)} on 2 files x 3 contents through LinkMetadataBuilder, calculate_hashes over 8 sizes x 6 reader shapes (short reads, interrupted) x 4 algorithm lists; and record_artifact on one file x 8 sizes x 4 algorithm lists x 8 strip lists x 4 spellings; a directory on another file system reached through a symbolic link inside the tree (when /dev/shm, /tmp or /var/tmp is one); a file rewritten in place with other bytes of the same length and its modification time restored, between two recordings (record_artifacts, record_artifact, and inside one in_toto_run); call histories (a step run - or failing to start - with run directory none / . / t / t/t / a missing one, then the tree recorded again: the process's working directory is unchanged and the recording equals the reference); a nested tree whose directory names repeat the strip prefix (t/f1, t/t/f2, t/t/t/f3, t/tt, t/t/tt2) x 9 strip lists x 3 root lists through record_artifacts and file by file through record_artifact. non-trivial = trees with a symlink, and run cases".into();
+    c.rule = "state = directory tree reached by appending one node under an existing directory (mkdir; write with size in {0,1,1023,1024,1025,4097,8193,70001} for single-node trees and {1,1025} otherwise; symlink absolute/relative to any existing node or to an ancestor incl. the root), names assigned in the fixed order a, ab, .h, 'e é', deduplicated on the sorted listing; per tree a menu of queries (whole tree x 7 strip lists x 10 algorithm lists (incl. lists that mix a supported with an unsupported or mis-cased name: an error, never a silently shortened digest set); non-normalised roots; each top-level node as root; two roots in both orders; overlapping and repeated roots) through record_artifacts in a private cwd, compared with an independent walker; plus in_toto_run with 7 commands on a subset, and with 6 argument variants (materials and products from different paths, other algorithms, strip prefixes, one side empty) x 4 commands; plus every history of depth <= 4 (5) over {add_material(f), add_product(f), write(f, c)} on 2 files x 3 contents through LinkMetadataBuilder, calculate_hashes over 8 sizes x 6 reader shapes (short reads, interrupted) x 4 algorithm lists; and record_artifact on one file x 8 sizes x 4 algorithm lists x 8 strip lists x 4 spellings; a directory on another file system reached through a symbolic link inside the tree (when /dev/shm, /tmp or /var/tmp is one); a file rewritten in place with other bytes of the same length and its modification time restored, between two recordings (record_artifacts, record_artifact, and inside one in_toto_run); call histories (a step run - or failing to start - with run directory none / . / t / t/t / a missing one, then the tree recorded again: the process's working directory is unchanged and the recording equals the reference); a nested tree whose directory names repeat the strip prefix (t/f1, t/t/f2, t/t/t/f3, t/tt, t/t/tt2) x 9 strip lists x 3 root lists through record_artifacts and file by file through record_artifact; byproducts: 13 standard-output contents x 13 standard-error contents (empty, text with and without a final newline, CR LF, non-ASCII, U+FFFD itself, NUL, 70001 bytes, and four that are not UTF-8) x exit status {0,1,3,255} (quick: the status cycles with the pair) through run_command and in_toto_run - an Ok carries exactly the bytes and the status, an Err only where a stream is not UTF-8. non-trivial = trees with a symlink, and run cases".into();
     c.bound_completed = format!("all trees with <= {max_nodes} nodes ({} trees{})", trees.len(), if capped { ", capped" } else { "" });
     c.assume("real filesystem (tmpfs); no dangling symlinks, devices, permission errors or non-UTF-8 names");
     c.assume("a file reached twice through the same key is one entry; two different files with one key must be an error");
